@@ -463,7 +463,8 @@ pub fn run_behaviour(tr: &Tracer, run: i64, ops: &[Value], nv: i64) {
     let shared = geti(first, "b") != 0;
     let init = geti(first, "a");
     tr.emit(&json!({"e": "Begin", "run": run, "layer": "obs", "flavor": "async",
-                    "shared": if shared {1} else {0}, "init": init, "nv": nv}));
+                    "shared": if shared {1} else {0}, "init": init, "nv": nv,
+                    "two": first.get("two").and_then(|x| x.as_i64()).unwrap_or(1)}));
     if shared {
         cx.owners.insert(1, Owner::Shared(Box::new(SharedObservable::new_async(Elem::new(init)))));
     } else {
